@@ -270,11 +270,17 @@ def _finish(run, self_, nid, inv, ent, kwargs):
 
 def body(self_, kwargs):
     run, nid, inv, ent = _enter(self_, kwargs)
+    rv = getattr(run, 'rendezvous', None)
+    if rv is not None and nid in rv.group:
+        rv.enter_sync(nid)  # real-thread runs (C06): wait, untimed, until every sibling of the group is in its body
     return _finish(run, self_, nid, inv, ent, kwargs)
 
 
 async def abody(self_, kwargs):
     run, nid, inv, ent = _enter(self_, kwargs)
+    rv = getattr(run, 'rendezvous', None)
+    if rv is not None and nid in rv.group:
+        await rv.enter_async(nid)
     if (run.nodes.get(nid) or {}).get('mode') == 'gated' and run.loop is not None and hasattr(run.loop, 'add_external'):
         from verifkit.vloop import Gate
 
